@@ -6,6 +6,9 @@
   `efc_tree_out[worldid, efcid]`, and its value is the tree of the FIRST body when that body moves, otherwise the tree
   of the SECOND body — where, for site-addressed equalities (`eq_objtype = mjOBJ_SITE = 6`), BOTH ends are resolved
   through `site_bodyid` before `body_treeid` is consulted.  (Seeded change C28c resolved only the first end.)
+  `efc_tree_dof_rows` (dof friction → tree of the dof, joint limit → tree of the joint's first dof) and `efc_tree_contact` (geom–geom
+  contact rows of all three kinds → tree of the first geom whose body moves) close the other non-generic branches the same way; tendon
+  rows, joint/tendon/flex equalities and flex contacts take the generic Jacobian scan (first dof with a nonzero entry), not stated here.
 -/
 import MjwVerif.Gen.Island
 
@@ -39,6 +42,40 @@ theorem efc_tree_connect_weld {K : Type} [Scalar K] (nv : Int) (body_treeid jnt_
     by_cases ht : body_treeid (site_bodyid (eq_obj1id (efc_id_in w r))) ≥ 0 <;>
     by_cases ht' : body_treeid (eq_obj1id (efc_id_in w r)) ≥ 0 <;>
     simp [hnot, htype, hk, hs, ht, ht']
+
+/-- **efc_tree_dof_rows**: for all inputs, a live dof-friction row (type 1) goes to the tree of its dof, a live joint-limit row (type 3)
+    to the tree of the joint's first dof. -/
+theorem efc_tree_dof_rows {K : Type} [Scalar K] (nv : Int) (body_treeid jnt_dofadr dof_treeid geom_bodyid site_bodyid eq_type eq_obj1id eq_obj2id eq_objtype : Int → Int)
+    (is_sparse : Bool) (nefc_in : Int → Int) (contact_geom_in : Int → I2) (efc_type_in efc_id_in : Int → Int → Int) (efc_J_in : Int → Int → Int → K)
+    (efc_J_rownnz_in efc_J_rowadr_in : Int → Int → Int) (efc_J_colind_in : Int → Int → Int → Int) (njmax_in : Int) (efc_tree_out : Int → Int → Int) (w r : Int)
+    (hlive : r < min njmax_in (nefc_in w)) (htype : efc_type_in w r = 1 ∨ efc_type_in w r = 3) :
+    _compute_efc_tree (K := K) nv body_treeid jnt_dofadr dof_treeid geom_bodyid site_bodyid eq_type eq_obj1id eq_obj2id eq_objtype is_sparse nefc_in contact_geom_in
+        efc_type_in efc_id_in efc_J_in efc_J_rownnz_in efc_J_rowadr_in efc_J_colind_in njmax_in efc_tree_out w r
+      = [(Write.mk "efc_tree_out" [w, r]
+          (WVal.i (if efc_type_in w r = 1 then dof_treeid (efc_id_in w r) else dof_treeid (jnt_dofadr (efc_id_in w r)))) WKind.set : Write K)] := by
+  have hnot : ¬ (r ≥ min njmax_in (nefc_in w)) := by omega
+  unfold _compute_efc_tree
+  rcases htype with ht | ht <;> simp [hnot, ht]
+
+/-- the specification for contact rows: the first geom whose body moves wins -/
+def contactTree (body_treeid geom_bodyid : Int → Int) (g : I2) : Int :=
+  if body_treeid (geom_bodyid g.c0) ≥ 0 then body_treeid (geom_bodyid g.c0) else body_treeid (geom_bodyid g.c1)
+
+/-- **efc_tree_contact**: for all inputs, a live contact row (frictionless 5, pyramidal 6, elliptic 7) between two GEOMS goes to
+    `contactTree` of the contact's geom pair (flex contacts, geom id −1, take the generic Jacobian scan instead). -/
+theorem efc_tree_contact {K : Type} [Scalar K] (nv : Int) (body_treeid jnt_dofadr dof_treeid geom_bodyid site_bodyid eq_type eq_obj1id eq_obj2id eq_objtype : Int → Int)
+    (is_sparse : Bool) (nefc_in : Int → Int) (contact_geom_in : Int → I2) (efc_type_in efc_id_in : Int → Int → Int) (efc_J_in : Int → Int → Int → K)
+    (efc_J_rownnz_in efc_J_rowadr_in : Int → Int → Int) (efc_J_colind_in : Int → Int → Int → Int) (njmax_in : Int) (efc_tree_out : Int → Int → Int) (w r : Int)
+    (hlive : r < min njmax_in (nefc_in w)) (htype : efc_type_in w r = 5 ∨ efc_type_in w r = 6 ∨ efc_type_in w r = 7)
+    (hg0 : (contact_geom_in (efc_id_in w r)).c0 ≥ 0) (hg1 : (contact_geom_in (efc_id_in w r)).c1 ≥ 0) :
+    _compute_efc_tree (K := K) nv body_treeid jnt_dofadr dof_treeid geom_bodyid site_bodyid eq_type eq_obj1id eq_obj2id eq_objtype is_sparse nefc_in contact_geom_in
+        efc_type_in efc_id_in efc_J_in efc_J_rownnz_in efc_J_rowadr_in efc_J_colind_in njmax_in efc_tree_out w r
+      = [(Write.mk "efc_tree_out" [w, r] (WVal.i (contactTree body_treeid geom_bodyid (contact_geom_in (efc_id_in w r)))) WKind.set : Write K)] := by
+  have hnot : ¬ (r ≥ min njmax_in (nefc_in w)) := by omega
+  unfold _compute_efc_tree contactTree
+  rcases htype with ht | ht | ht <;>
+    by_cases hb : body_treeid (geom_bodyid (contact_geom_in (efc_id_in w r)).c0) ≥ 0 <;>
+    simp [hnot, ht, hg0, hg1, hb]
 
 /-- non-vacuity: a site-addressed connect whose first site is on the world body (tree −1) goes to the tree of the SECOND site's body
     (site 3 sits on body 1, tree 0; body 3 — the site id misread as a body id — is in tree 2). -/
